@@ -1,5 +1,6 @@
 """One process-history for C19.  argv: <libdir> <history json>; prints one JSON line per Program construction."""
 import json
+import os
 import sys
 import warnings
 
@@ -40,6 +41,9 @@ for ev in hist:
             out.append(["dup", names])   # canonical: the set order of the message is not part of the behaviour
         except Exception as ex:
             out.append(["error", type(ex).__name__ + ": " + str(ex)[:200]])
+    elif ev[0] == "touch":          # the cause of an import failure is repaired (a settings file appears)
+        open(os.path.join(libdir, ev[1]), "w").close()
+        out.append(["touched"])
     elif ev[0] == "dump":
         out.append(["registry", sorted([i.module, i.command.name] for i in Command.get_commands())])
 print(json.dumps({"tree": mpilot.__file__, "out": out}))
